@@ -40,14 +40,15 @@ SCHED_MODEL = (
 SCHED = [("R01", sched.r01_next_pull), ("R02", sched.r02_sched_agree), ("R03", sched.r03_r09_step), ("R09", sched.r09_structure),
          ("R05", sched.r05_select)]
 CONNECT = [("R10", life.r10_stall), ("R10b", life.r10b_mustconnect), ("R11", connect.r11_r12_connect), ("R11r", connect.r11r_rules),
-           ("R13", connect.r13_nodata), ("R14", connect.r14_doublepush)]
+           ("R13", connect.r13_nodata), ("R14", connect.r14_doublepush), ("R06s", life.r06s_start_time)]
 LIFE = [("R06", life.r06_life), ("R07", life.r07_status), ("R08", life.r08_advance)]
-LINKDATA = [("R17", buffer.r17_nearest), ("R17p", link.r17_pushpath), ("R18", link.r18_pullpath), ("R20", link.r20_target),
+LINKDATA = [("R17", buffer.r17_nearest), ("R17p", link.r17_pushpath), ("R18", link.r18_pullpath), ("R18s", link.r18s_shape), ("R20", link.r20_target),
             ("R21", buffer.r21_evict), ("R04", buffer.r04_cmp)]
 SPILL = [("R22", spill.r22_pack), ("R23", spill2.r23s_finalize), ("R24", spill2.r24s_format), ("R25", spill2.r25s_pack)]
 TIMEAD = [("R26", buffer.r26_buffer), ("R27", buffer.r27_interp), ("R30", link.r30_delay)]
 INTEG = [("R28", integ.r28_dim), ("R29", integ.r29_integ)]
 GRID = [("R31", grid.r31_memo), ("R32", grid.r32_gridsib), ("R32b", grid.r32b_indexspace), ("R32c", grid.r32c_cellcenters),
+        ("R32d", grid.r32d_cellcorners),
         ("R33", grid.r33_mirror), ("R34", grid.r34_transdir), ("R19", grid.r19_taxis), ("R15g", data.r15g_gridcompat)]
 META = [("R15", data.r15_fields), ("R15c", data.r15c_copy_with), ("R16", data.r16_getinfo), ("R37", data.r37_masktable),
         ("R37e", data.r37e_masks_equal_layout), ("R41", misc.r41_masktruth)]
@@ -78,13 +79,15 @@ RULES = {
     "C08": _u(LINKDATA, ("R19", grid.r19_taxis), ("R33", grid.r33_mirror), ("R34", grid.r34_transdir), ("R15g", data.r15g_gridcompat),
               UNITS, ("R37", data.r37_masktable), ("R37e", data.r37e_masks_equal_layout), ("R22", spill.r22_pack), ("R25", spill2.r25s_pack),
               ("R24", spill2.r24s_format)),
-    "C09": _u(("R20", link.r20_target), ("R21", buffer.r21_evict), ("R17", buffer.r17_nearest), ("R17p", link.r17_pushpath), SPILL),
-    "C10": _u(SPILL, ("R21", buffer.r21_evict), ("R26", buffer.r26_buffer), ("R27", buffer.r27_interp), ("R29", integ.r29_integ)),
-    "C11": _u(TIMEAD, ("R21", buffer.r21_evict), ("R04", buffer.r04_cmp), ("R22", spill.r22_pack), ("R24", spill2.r24s_format)),
-    "C12": _u(INTEG, ("R26", buffer.r26_buffer), ("R22", spill.r22_pack), ("R21", buffer.r21_evict), ("R04", buffer.r04_cmp),
+    "C09": _u(("R20", link.r20_target), ("R21", buffer.r21_evict), ("R17", buffer.r17_nearest), ("R17p", link.r17_pushpath), SPILL,
+              VALID, TIMEAD, INTEG),
+    "C10": _u(SPILL, ("R20", link.r20_target), ("R21", buffer.r21_evict), ("R26", buffer.r26_buffer), ("R27", buffer.r27_interp), ("R29", integ.r29_integ)),
+    "C11": _u(TIMEAD, ("R20", link.r20_target), ("R21", buffer.r21_evict), ("R04", buffer.r04_cmp), ("R22", spill.r22_pack), ("R24", spill2.r24s_format)),
+    "C12": _u(INTEG, ("R20", link.r20_target), ("R26", buffer.r26_buffer), ("R22", spill.r22_pack), ("R21", buffer.r21_evict), ("R04", buffer.r04_cmp),
               ("R24", spill2.r24s_format)),
     "C13": _u(("R30", link.r30_delay), ("R02", sched.r02_sched_agree), ("R03", sched.r03_r09_step), ("R20", link.r20_target)),
     "C14": _u(("R31", grid.r31_memo), ("R32", grid.r32_gridsib), ("R32b", grid.r32b_indexspace), ("R32c", grid.r32c_cellcenters),
+              ("R32d", grid.r32d_cellcorners),
               ("R33", grid.r33_mirror), ("R15g", data.r15g_gridcompat)),
     "C15": _u(("R19", grid.r19_taxis), ("R33", grid.r33_mirror), ("R34", grid.r34_transdir), ("R15g", data.r15g_gridcompat),
               ("R32", grid.r32_gridsib), ("R18", link.r18_pullpath), ("R37e", data.r37e_masks_equal_layout)),
